@@ -314,8 +314,12 @@ func c20Mapper(c *ev.Ctx) {
 				res := make([]p9.QID, 0, 2*N)
 				for i := 0; i < N; i++ {
 					src := uint64((i*7 + w*3) % 97) // known and fresh sources mixed
-					res = append(res, m1.QIDFor(p9.QID{Type: p9.TypeDir, Version: 3, Path: src}))
-					res = append(res, m2.QIDFor(p9.QID{Path: src}))
+					// type and version of one source change between lookups (an
+					// inode number reused by a file of another type): the mapper
+					// translates the path and nothing else
+					typ, ver := c20MapperTypeVer(i)
+					res = append(res, m1.QIDFor(p9.QID{Type: typ, Version: ver, Path: src}))
+					res = append(res, m2.QIDFor(p9.QID{Type: typ, Version: ver + 1, Path: src}))
 				}
 				out[w] = res
 			}(w)
@@ -329,8 +333,8 @@ func c20Mapper(c *ev.Ctx) {
 				src := uint64((i*7 + w*3) % 97)
 				for k, fm := range []map[uint64]uint64{f1, f2} {
 					q := out[w][2*i+k]
-					if k == 0 && (q.Type != p9.TypeDir || q.Version != 3) {
-						c.Violation("C20:mapper:type-or-version-changed", q.String())
+					if typ, ver := c20MapperTypeVer(i); q.Type != typ || q.Version != ver+uint32(k) {
+						c.Violation("C20:mapper:type-or-version-changed", map[string]any{"got": q.String(), "want_type": typ, "want_version": ver + uint32(k), "src": src})
 					}
 					if prev, ok := fm[src]; ok && prev != q.Path {
 						c.Violation("C20:mapper:one-source-two-outputs", map[string]any{"src": src, "a": prev, "b": q.Path, "round": round})
@@ -348,6 +352,10 @@ func c20Mapper(c *ev.Ctx) {
 		c.Count("mapper_lookups", int64(2*G*N))
 	}
 	c.Sample(map[string]any{"part": "mapper", "goroutines": 8, "lookups_per_round": 4800, "sources": 97})
+}
+
+func c20MapperTypeVer(i int) (p9.QIDType, uint32) {
+	return []p9.QIDType{p9.TypeDir, p9.TypeRegular, p9.TypeSymlink}[(i/97)%3], uint32(3 + i/50)
 }
 
 // ---- composefs / staticfs served to concurrent clients ----
